@@ -460,7 +460,7 @@ def finish(ctx, manifest_entry, res, trusted_base, assumptions, level, checker_c
 
 
 # -------------------------------------------------------------------- grouped line protocols
-def run_grouped(binary, groups, timeout=1800, max_restarts=40, env=None):
+def run_grouped(binary, groups, timeout=1800, max_restarts=40, env=None, cpu=None):
     """groups: list of (header_line, [op lines]).  Feeds header + ops to `binary`, which answers one line per input
     line.  If the process dies (the harnesses print 'CRASH <signal>' from their signal handler) the crashing line gets
     that answer and the process is restarted on the rest of the group.  Returns list of (header_answer, [answers])."""
@@ -472,7 +472,7 @@ def run_grouped(binary, groups, timeout=1800, max_restarts=40, env=None):
         restarts = 0
         while True:
             text = hdr + "\n" + "\n".join(ops[start:]) + "\n"
-            rc, out, err = sh_out([binary], input=text, timeout=timeout, env=env)
+            rc, out, err = sh_out([binary], input=text, timeout=timeout, env=env, cpu=cpu)
             lines = out.split("\n")
             if lines and lines[-1] == "":
                 lines.pop()
